@@ -478,6 +478,13 @@ static void generate_minimal_hash(std::vector<std::string> str, Port_Matcher &pm
         return;
     }
     pm.assoc = find_assoc(str, pm.pos);
+    //the search is a heuristic, names may still collide (e.g. anagrams)
+    auto hashed = do_hash(str, pm.pos, pm.assoc);
+    if(count_dups(hashed) != 0) {
+        fprintf(stderr, "rtosc: Failed to generate minimal hash\n");
+        pm.pos.clear();
+        return;
+    }
     pm.remap = find_remap(str, pm.pos, pm.assoc);
 }
 
